@@ -9,7 +9,9 @@ from the application thread, and a DDL request (RESULT schema_change) through a 
 schema metadata enabled / disabled - also with the agreement poll cut short at a chosen poll by
 error answers, by a reset of the connection carrying the poll, or by the client request timeout;
 in other episodes some polls (varying positions and numbers) are never answered and run into the
-control-connection request timeout, with convergence before or after the deadline.  Every poll the driver makes is recorded at the node with
+control-connection request timeout, with convergence before or after the deadline; and episodes
+with two or three overlapping waiters (application thread, DDL response path, pushed schema event,
+main thread) with different budgets that serialise on the agreement lock, each judged on its own polls.  Every poll the driver makes is recorded at the node with
 its virtual time and exactly the rows it was served; the verdict is recomputed from those polls.
 """
 import random
@@ -130,6 +132,7 @@ def run_history(seed):
                                                                          ('replication_factor', '1')]]], 'system_schema', 'keyspaces')
         if q.startswith('create keyspace') and uid_of(req['query']) is not None:
             ep.setdefault('ddl_nodes', []).append(node.address)
+            ep.setdefault('ddl_conn', {})[uid_of(req['query'])] = cstate.conn.sim_id
             return node.reply(cstate, req, 'RESULT', F.body_result_schema_change(req['version'], 'CREATED', 'KEYSPACE', 'ks%d' % uid_of(req['query'])))
         pm = PEERS_SELECT.match(q)
         if pm and pm.group(2) == 'peers_v2' and not v2:
@@ -156,12 +159,12 @@ def run_history(seed):
         if is_peers and len(ep['polls']) in ep.get('unanswered', ()):
             # this poll is never answered: the driver's request times out (ControlConnection timeout, clamped to what is left of the wait)
             ep['polls'].append({'t': env.world.now, 'node': node.address, 'snap': idx, 'rows': [], 'states': dict(snap['states']),
-                                'local': 'pending', 'unanswered': True})
+                                'local': 'pending', 'unanswered': True, 'thread': env.world.cur().name, 'conn': cstate.conn.sim_id})
             return ('silence',)
         if is_peers:
             reaction, served = peers_answer(node, cstate, req, pm, snap)
             ep['polls'].append({'t': env.world.now, 'node': node.address, 'snap': idx, 'rows': served, 'states': dict(snap['states']),
-                                'local': 'pending'})
+                                'local': 'pending', 'thread': env.world.cur().name, 'conn': cstate.conn.sim_id})
             return reaction
         poll = ep['polls'][-1] if ep['polls'] else None
         if poll is None or poll['local'] != 'pending' or poll['node'] != node.address:
@@ -216,11 +219,12 @@ def run_history(seed):
              'polls_without_any_version': 0, 'agreement_after_budget': 0, 'agreement_on_later_poll': 0,
              'ddl_fault': 0, 'ddl_timeout': 0, 'faults_fired': 0, 'faults_fired_reset': 0, 'timeouts_fired_while_polling': 0,
              'cut_short_without_any_agreeing_poll': 0, 'polls_decided_by_peer_on_non_default_port': 0, 'polls_unanswered': 0,
-             'episodes_with_unanswered_poll': 0, 'episodes_unanswered_poll_no_agreement_in_budget': 0}
+             'episodes_with_unanswered_poll': 0, 'episodes_unanswered_poll_no_agreement_in_budget': 0, 'overlap_episodes': 0, 'overlap_waiters_checked': 0,
+             'waiters_queued_behind_a_waiter_that_gave_up': 0, 'queued_waiters_that_then_saw_agreement': 0}
     ep_log = []
     with env:
         cc_timeout = rng.choice([0.25, 0.45, 0.65])        # per-request timeout of the polls (Cluster.control_connection_timeout)
-        cluster = env.cluster(protocol_version=proto, control_connection_timeout=cc_timeout)
+        cluster = env.cluster(protocol_version=proto, control_connection_timeout=cc_timeout, schema_event_refresh_window=0)
         session = cluster.connect()
         env.world.settle()
         with env.world.inspect():
@@ -230,8 +234,155 @@ def run_history(seed):
                 raise RuntimeError("discovered hosts %r, expected %r" % (sorted(str(h.endpoint) for h in hosts_by_addr.values()),
                                                                          sorted((a, port_of[a]) for a in known)))
         net_state['stranger_joined'] = True
+        def overlap_episode(e):
+            """two or three agreement waits that overlap in time, entered from different threads with different budgets: an application
+            thread calling the wait, the response path of a DDL request (an executor thread), a pushed SCHEMA_CHANGE event (another executor
+            thread; no verdict to observe), the scenario's main thread.  They serialise on the control connection's agreement lock."""
+            cc = cluster.control_connection
+            n = rng.choice([2, 2, 3])
+            kinds = []
+            for i in range(n):
+                opts = ['app', 'app']
+                if 'ddl' not in kinds:
+                    opts.append('ddl')
+                if 'event' not in kinds and i < n - 1:
+                    opts.append('event')
+                if i == n - 1:
+                    opts.append('main')
+                kinds.append(rng.choice(opts))
+            small, large = [0.3, 0.5, 0.7], [0.9, 1.1, 1.5, 2.0]
+            budgets = [rng.choice(small if (i == 0) == (rng.random() < 0.8) else large) for i in range(n)]
+            # disagreement first; the nodes converge at some point (often between the first waiter's deadline and a later one's) or never
+            sched = [(0.0, make_snapshot(False))]
+            if rng.random() < 0.8:
+                sched.append((0.1 + POLL * rng.randrange(0, 14), make_snapshot(True)))
+            ep.clear()
+            ep.update({'active': True, 't0': env.world.now, 'schedule': sched, 'polls': [], 'torn': False, 'fault': None, 'fault_state': 0})
+            apply_states(sched[0][1])
+            cluster.schema_metadata_enabled = rng.random() < 0.5
+            t0 = ep['t0']
+            waiters = []
+            for i, (kind, b) in enumerate(zip(kinds, budgets)):
+                w = {'kind': kind, 'budget': b, 'i': i}
+                waiters.append(w)
+                if kind == 'app':
+                    def body(w=w):
+                        w['thread'] = env.world.cur().name
+                        w['t_call'] = env.world.now
+                        w['verdict'] = cc.wait_for_schema_agreement(wait_time=w['budget'])
+                        w['t_ret'] = env.world.now
+                    env.world.spawn(body, name='app%d-%d' % (e, i))
+                elif kind == 'ddl':
+                    cluster.max_schema_agreement_wait = b
+                    uid = seed % 100000 * 10 + e
+                    w['t_call'] = env.world.now
+                    w['uid'] = uid
+                    f = session.execute_async("CREATE KEYSPACE /*uid=%d*/ ks%d WITH replication = {'class': 'SimpleStrategy', 'replication_factor': 1}" % (uid, uid),
+                                              timeout=60.0)
+
+                    def finished(kind_, value, f=f, w=w):
+                        if 't_ret' not in w:
+                            w.update(t_ret=env.world.now, verdict=f.is_schema_agreed, thread=env.world.cur().name, completed=kind_)
+                    f.add_callbacks(lambda r, fin=finished: fin('result', r), lambda x, fin=finished: fin('error', x))
+                elif kind == 'event':
+                    cluster.max_schema_agreement_wait = b
+                    w['t_call'] = env.world.now
+                    env.net.nodes[CONTROL].push_event(F.body_event_schema(proto, 'CREATED', 'KEYSPACE', 'ksev%d' % e))
+                else:
+                    w['thread'] = 'main'
+                    w['t_call'] = env.world.now
+                    w['verdict'] = cc.wait_for_schema_agreement(wait_time=b)
+                    w['t_ret'] = env.world.now
+                    continue
+                # let it get as far as it can (to its first poll, or to the lock) before the next waiter arrives, possibly a little later
+                env.world.settle(advance=False)
+                d = rng.choice([0.0, 0.0, 0.1, 0.3])
+                if d:
+                    env.world.advance_to(env.world.now + d)
+            env.world.settle(until=env.world.now + 30.0)
+            ep['active'] = False
+            for h in hosts_by_addr.values():
+                h.is_up = True
+            env.world.settle(until=env.world.now + 1.0)
+            stats['episodes'] += 1
+            stats['overlap_episodes'] += 1
+            observed = [w for w in waiters if w['kind'] != 'event']
+            for w in observed:
+                if 't_ret' not in w or w.get('completed') == 'error':
+                    raise RuntimeError("overlapping waiter did not finish: %r" % (w,))
+                if w['verdict'] is None:
+                    raise RuntimeError("wait_for_schema_agreement returned None (shutdown?)")
+            polls = ep['polls']
+            if ep['torn'] or any(p['local'] == 'pending' for p in polls):
+                stats['torn'] += 1
+                return
+            stats['polls'] += len(polls)
+            # a waiter's polls: those its own thread sent between its call and its return over the connection it polls on (a DDL's wait polls
+            # the connection that carried the request, the others the control connection; an executor thread may have served the event's wait before)
+            ctrl_conn = cc._connection.sim_id
+            for w in observed:
+                conn = ep.get('ddl_conn', {}).get(w.get('uid')) if w['kind'] == 'ddl' else ctrl_conn
+                # (the DDL's completion callback may run on the registering thread when the request finished first: its thread is not used)
+                w['polls'] = [p for p in polls if (w['kind'] == 'ddl' or p['thread'] == w['thread']) and p['conn'] == conn and
+                              w['t_call'] - 1e-9 <= p['t'] <= w['t_ret'] + 1e-9]
+            for a in observed:
+                for b_ in observed:
+                    if a is not b_ and 'ddl' not in (a['kind'], b_['kind']) and a['thread'] == b_['thread'] and not (a['t_ret'] < b_['t_call'] or b_['t_ret'] < a['t_call']):
+                        stats['torn'] += 1          # two waits on one executor thread with overlapping windows: polls cannot be attributed
+                        return
+            first_poll_of = dict((id(w), (w['polls'][0]['t'] if w['polls'] else None)) for w in observed)
+            for w in observed:
+                wp = w['polls']
+                agreed = [len(poll_versions(p, known)) == 1 for p in wp]
+                b = w['budget']
+                stats['overlap_waiters_checked'] += 1
+                # was it queued behind a waiter that gave up in disagreement while this one was blocked on the lock?
+                behind = [o for o in waiters if o is not w and o.get('t_ret') is not None and o.get('verdict') is False and
+                          w['t_call'] < o['t_ret'] <= (wp[0]['t'] if wp else w['t_ret']) + 1e-9]
+                if behind:
+                    stats['waiters_queued_behind_a_waiter_that_gave_up'] += 1
+                    if w['verdict']:
+                        stats['queued_waiters_that_then_saw_agreement'] += 1
+                wit = {'seed': seed, 'episode': e, 'mode': 'overlap', 'budget': b, 'proto': proto, 'peers_v2': v2, 'known_hosts': sorted(known),
+                       'waiter': dict((k, w[k]) for k in ('kind', 'budget', 'thread', 'verdict')), 'called_at': round(w['t_call'] - t0, 6),
+                       'returned_at': round(w['t_ret'] - t0, 6),
+                       'all_waiters': [dict((k, (round(o[k] - t0, 6) if k.startswith('t_') else o[k])) for k in ('kind', 'budget', 'thread', 'verdict', 't_call', 't_ret') if k in o)
+                                       for o in waiters],
+                       'own_polls': [{'at': round(p['t'] - t0, 6), 'node': p['node'], 'local': str(p['local']), 'rows': [(a, str(v)) for a, v in p['rows']],
+                                      'states': p['states'], 'single_version': ag} for p, ag in zip(wp, agreed)][-12:],
+                       'all_polls': [(round(p['t'] - t0, 3), p['thread']) for p in polls][-30:]}
+                if not wp:
+                    # it never polled: only acceptable when its whole wait ran out while it was blocked behind the others
+                    if w['verdict'] or w['t_ret'] - w['t_call'] < b - 1e-3:
+                        viol.append(('waiter-gave-verdict-without-polling', '%s waiter (wait %.1fs) returned %r %.3fs after it was called without a single poll of its own' % (
+                            w['kind'], b, w['verdict'], w['t_ret'] - w['t_call']), wit))
+                    continue
+                start = wp[0]['t']
+                if w['verdict'] and not agreed[-1]:
+                    viol.append(('agreement-reported-on-differing-versions', '%s waiter: verdict True but its last poll served versions %r' % (
+                        w['kind'], sorted(str(v) for v in poll_versions(wp[-1], known))), wit))
+                elif w['verdict'] and any(agreed[:-1]):
+                    viol.append(('polled-on-after-agreement', '%s waiter: a poll before its last one already served a single version' % w['kind'], wit))
+                elif not w['verdict'] and any(agreed):
+                    viol.append(('disagreement-reported-although-a-poll-agreed', '%s waiter: verdict False but its poll at %.2fs served a single version' % (
+                        w['kind'], wp[agreed.index(True)]['t'] - t0), wit))
+                if wp[-1]['t'] - start >= b + 1e-3:
+                    viol.append(('polled-beyond-the-configured-wait', '%s waiter polled %.3fs after its first poll, configured wait %.1fs' % (w['kind'], wp[-1]['t'] - start, b), wit))
+                if not w['verdict'] and not any(agreed):
+                    if w['t_ret'] - start < b - 1e-3:
+                        viol.append(('stopped-polling-before-the-wait-elapsed', '%s waiter gave up %.3fs after its first poll (%d polls), its configured wait is %.1fs' % (
+                            w['kind'], w['t_ret'] - start, len(wp), b), wit))
+                    gaps = [y['t'] - x['t'] for x, y in zip(wp, wp[1:])] + [w['t_ret'] - wp[-1]['t']]
+                    if max(gaps) > POLL + 0.01:
+                        viol.append(('polling-gap-longer-than-interval', '%s waiter: gap of %.3fs between its polls / before giving up' % (w['kind'], max(gaps)), wit))
+                ep_log.append(('overlap', tuple((o['kind'], o['budget']) for o in waiters), w['i'], w['verdict'], round(w['t_call'] - t0, 3), round(w['t_ret'] - t0, 3),
+                               tuple((round(p['t'] - t0, 3), p['node'], str(p['local']), tuple((a, str(v), p['states'].get(a)) for a, v in p['rows'])) for p in wp)))
+
         neps = rng.randint(3, 6)
         for e in range(neps):
+            if e < neps - 1 and rng.random() < 0.22:
+                overlap_episode(e)
+                continue
             mode = rng.choice(['direct', 'direct-default', 'ddl-on', 'ddl-off', 'ddl-timeout'])
             if e == neps - 1 and rng.random() < 0.6:
                 # either fault defuncts the pool connection that carried the poll (host marked down, reconnection ...): only as the last episode
@@ -449,6 +600,9 @@ def run(ctx):
                 "budget, and the polls the driver made (virtual offset, polled node, versions and host states served); distinct by that tuple; "
                 "non-trivial = at least two nodes' versions were served")
     ctx.assume("a null schema_version is 'no version reported' (such a node neither agrees nor disagrees); a wait budget <= 0 (documented bypass) is not generated")
+    ctx.assume("overlapping waiters: a waiter's configured wait is counted from its own first poll, i.e. the time it spends blocked behind another "
+               "waiter on the agreement lock is not charged to it (the statement speaks of polling until the configured wait elapses; the driver "
+               "starts its clock after taking the lock) - a waiter that never polls must have been blocked for its whole wait")
     ctx.assume("snapshot switches are scheduled midway between polls so that both queries of a poll see the same snapshot (torn polls are counted and skipped)")
     n = ctx.scale(100000, 60000)
     budget = 38 if ctx.quick else 300
@@ -487,7 +641,10 @@ def run(ctx):
                      ("ddl_cut_short_without_any_agreeing_poll", 'cut_short_without_any_agreeing_poll'),
                      ("polls_decided_by_peer_on_non_default_native_port", 'polls_decided_by_peer_on_non_default_port'),
                      ("polls_unanswered_until_request_timeout", 'polls_unanswered'), ("episodes_with_unanswered_poll", 'episodes_with_unanswered_poll'),
-                     ("episodes_with_unanswered_poll_and_no_agreement_within_wait", 'episodes_unanswered_poll_no_agreement_in_budget')):
+                     ("episodes_with_unanswered_poll_and_no_agreement_within_wait", 'episodes_unanswered_poll_no_agreement_in_budget'),
+                     ("episodes_with_overlapping_waiters", 'overlap_episodes'), ("overlapping_waiters_checked", 'overlap_waiters_checked'),
+                     ("waiters_queued_behind_a_waiter_that_gave_up", 'waiters_queued_behind_a_waiter_that_gave_up'),
+                     ("queued_waiters_that_then_saw_agreement", 'queued_waiters_that_then_saw_agreement')):
             ctx.count(k, stats[v])
         seen = set()
         for mech, what, wit in viol:
@@ -506,4 +663,6 @@ def run(ctx):
                           "episodes_agreement_only_after_budget": 30, "episodes_agreement_on_a_later_poll": 50,
                           "poll_faults_fired": 60, "poll_faults_fired_connection_reset": 10, "client_timeouts_fired_while_polling": 60,
                           "ddl_cut_short_without_any_agreeing_poll": 100, "polls_decided_by_peer_on_non_default_native_port": 100,
-                          "polls_unanswered_until_request_timeout": 200, "episodes_with_unanswered_poll_and_no_agreement_within_wait": 60}
+                          "polls_unanswered_until_request_timeout": 200, "episodes_with_unanswered_poll_and_no_agreement_within_wait": 60,
+                          "episodes_with_overlapping_waiters": 150, "overlapping_waiters_checked": 300, "waiters_queued_behind_a_waiter_that_gave_up": 80,
+                          "queued_waiters_that_then_saw_agreement": 25}
